@@ -1,7 +1,35 @@
-//! C05 — (stub, under construction)
+//! C05 — Glyph positioning follows OpenType GPOS semantics (incl. the legacy kern table).
+//!
+//! A case is a generated GDEF/GPOS/kern program (AST in c05_gen.rs, written by the independent
+//! writer there) wrapped in a minimal sfnt with distinct advances, plus a glyph string. allsorts
+//! shapes the string (`Font::shape`, or `gpos::apply_features` directly) and lays it out in both
+//! directions (`GlyphLayout::glyph_positions`). The reference interpreter (c05_model.rs) evaluates
+//! the same AST; the oracle is relational on absolute pen positions.
 
+#[path = "c05_gen.rs"]
+pub mod c05_gen;
+#[path = "c05_model.rs"]
+pub mod c05_model;
+
+use self::c05_gen::*;
+use self::c05_model::*;
 use super::Prop;
 use crate::rt::*;
+use crate::sfnt::cmap as icmap;
+use crate::sfnt::tables::{minimal_font, write_hmtx, Hhea};
+use allsorts::binary::read::ReadScope;
+use allsorts::font_data::FontData;
+use allsorts::glyph_position::{GlyphLayout, TextDirection};
+use allsorts::gpos::{self, Info, Placement};
+use allsorts::gsub::{FeatureInfo, Features, GlyphOrigin, RawGlyph, RawGlyphFlags};
+use allsorts::tables::kern::KernTable;
+use allsorts::tinyvec::tiny_vec;
+use allsorts::Font;
+
+/// UseMarkFilteringSet lookups are generated since /repo commit ae4597e ("fix: a mark filtering set
+/// only skips marks outside the set and supersedes the mark attachment type"); before it every
+/// non-mark glyph was skipped by such a lookup.
+const MFS_ENABLED: bool = true;
 
 pub struct C05 {}
 
@@ -11,8 +39,501 @@ impl C05 {
     }
 }
 
+fn build_font(case: &Case, kern_left_incl_array: bool) -> Result<Vec<u8>, String> {
+    let n = case.uni.n;
+    let groups = vec![(0x41u32, 0x41 + n as u32 - 2, 1u32)];
+    let sub = icmap::write_format12(&groups, 0);
+    let cmap = icmap::write_cmap(&[icmap::Record { platform: 3, encoding: 10, subtable: 0 }], &[sub]);
+    let mut f = minimal_font(cmap, n, Some(0x41));
+    let metrics: Vec<(u16, i16)> = case.uni.adv.iter().map(|&a| (a, 0i16)).collect();
+    f.sets("hmtx", write_hmtx(&metrics, n as usize));
+    let hhea = Hhea { ascender: 800, descender: -200, advance_width_max: 4000, num_h_metrics: n, caret_slope_rise: 1, ..Default::default() };
+    f.sets("hhea", hhea.write());
+    if case.uni.has_gdef {
+        f.sets("GDEF", case.uni.write_gdef()?);
+    }
+    if let Some(l) = &case.gpos {
+        f.sets("GPOS", write_gpos(l, case.rev_layout)?);
+    }
+    if let Some(k) = &case.kern {
+        f.sets("kern", k.write(kern_left_incl_array));
+    }
+    if !case.liga.is_empty() && !case.direct {
+        f.sets("GSUB", write_gsub_liga(&case.liga, &case.gsub_scripts, tag("liga"))?);
+    }
+    Ok(f.build())
+}
+
+#[derive(Clone, Debug)]
+struct Observed {
+    gids: Vec<u16>,
+    kerning: Vec<i32>,
+    placement: Vec<Placement>,
+    /// per direction (ltr, rtl): (advance, x offset, y offset, vertical advance)
+    pos: [Vec<(i32, i32, i32, i32)>; 2],
+}
+
+enum RunErr {
+    Setup(String),
+    Shape(String),
+    Layout(String),
+}
+
+fn run_allsorts(case: &Case, font_bytes: &[u8]) -> Result<Observed, RunErr> {
+    let fd = ReadScope::new(font_bytes).read::<FontData<'_>>().map_err(|e| RunErr::Setup(format!("fontdata {:?}", e)))?;
+    let provider = fd.table_provider(0).map_err(|e| RunErr::Setup(format!("provider {:?}", e)))?;
+    let mut font = Font::new(provider).map_err(|e| RunErr::Setup(format!("font {:?}", e)))?;
+    let glyphs: Vec<RawGlyph<()>> = case
+        .input
+        .iter()
+        .map(|&g| RawGlyph {
+            unicodes: tiny_vec![[char; 1] => 'a'],
+            glyph_index: g,
+            liga_component_pos: 0,
+            glyph_origin: GlyphOrigin::Direct,
+            flags: RawGlyphFlags::empty(),
+            variation: None,
+            extra_data: (),
+        })
+        .collect();
+    let feats: Vec<FeatureInfo> = case.custom.iter().map(|&t| FeatureInfo { feature_tag: t, alternate: None }).collect();
+    let infos: Vec<Info> = if case.direct && case.gpos.is_some() {
+        let cache = match font.gpos_cache() {
+            Ok(Some(c)) => c,
+            Ok(None) => return Err(RunErr::Setup("no gpos cache".into())),
+            Err(e) => return Err(RunErr::Shape(format!("gpos_cache {:?}", e))),
+        };
+        let gdef = font.gdef_table().map_err(|e| RunErr::Shape(format!("gdef {:?}", e)))?;
+        let kern_rc = font.kern_table().map_err(|e| RunErr::Shape(format!("kern {:?}", e)))?;
+        let kern = kern_rc.as_ref().map(|k| KernTable::from(k.as_ref()));
+        let mut infos = Info::init_from_glyphs(gdef.as_deref(), glyphs);
+        let script = cache.layout_table.find_script_or_default(case.script).map_err(|e| RunErr::Shape(format!("script {:?}", e)))?;
+        if let Some(script) = script {
+            let langsys = script.find_langsys_or_default(case.lang).map_err(|e| RunErr::Shape(format!("langsys {:?}", e)))?;
+            if let Some(langsys) = langsys {
+                gpos::apply_features(&cache, &cache.layout_table, gdef.as_deref(), kern, langsys, feats.iter().copied(), None, &mut infos)
+                    .map_err(|e| RunErr::Shape(format!("apply_features {:?}", e)))?;
+            }
+        }
+        infos
+    } else {
+        match font.shape(glyphs, case.script, case.lang, &Features::Custom(feats), None, case.kerning) {
+            Ok(i) => i,
+            Err((e, _)) => return Err(RunErr::Shape(format!("shape {:?}", e))),
+        }
+    };
+    let mut pos: [Vec<(i32, i32, i32, i32)>; 2] = [Vec::new(), Vec::new()];
+    for (d, dir) in [TextDirection::LeftToRight, TextDirection::RightToLeft].into_iter().enumerate() {
+        let mut layout = GlyphLayout::new(&mut font, &infos, dir, false);
+        let p = layout.glyph_positions().map_err(|e| RunErr::Layout(format!("{:?}", e)))?;
+        pos[d] = p.iter().map(|p| (p.hori_advance, p.x_offset, p.y_offset, p.vert_advance)).collect();
+    }
+    Ok(Observed {
+        gids: infos.iter().map(|i| i.glyph.glyph_index).collect(),
+        kerning: infos.iter().map(|i| i.kerning as i32).collect(),
+        placement: infos.iter().map(|i| i.placement).collect(),
+        pos,
+    })
+}
+
+fn tag_s(t: u32) -> String {
+    crate::sfnt::tag_str(t)
+}
+
+fn case_json(case: &Case, font: &[u8]) -> J {
+    J::obj(vec![
+        ("scenario", J::s(format!("{:?}", case.scenario))),
+        ("input", J::A(case.input.iter().map(|&g| J::U(g as u64)).collect())),
+        ("script", J::s(tag_s(case.script))),
+        ("lang", J::s(case.lang.map(tag_s).unwrap_or_default())),
+        ("custom", J::A(case.custom.iter().map(|&t| J::s(tag_s(t))).collect())),
+        ("kerning", J::Bool(case.kerning)),
+        ("direct", J::Bool(case.direct)),
+        ("gdef_classes", J::s(case.uni.class.iter().map(|c| char::from(b'0' + *c)).collect::<String>())),
+        ("mark_attach", J::s(case.uni.mac.iter().map(|c| char::from(b'0' + *c)).collect::<String>())),
+        ("has_gdef", J::Bool(case.uni.has_gdef)),
+        ("features", J::s(case.gpos.as_ref().map(|l| format!("{:?}", l.features.iter().map(|f| (tag_s(f.0), f.1.clone())).collect::<Vec<_>>())).unwrap_or_default())),
+        ("lookups", J::s(case.gpos.as_ref().map(|l| format!("{:?}", l.lookups)).unwrap_or_default().chars().take(6000).collect::<String>())),
+        ("kern", J::s(format!("{:?}", case.kern).chars().take(1500).collect::<String>())),
+        ("liga", J::s(format!("{:?}", case.liga))),
+        ("font", J::hex(font)),
+    ])
+}
+
+fn lookup_types(case: &Case, o: &Outcome) -> String {
+    let mut t: Vec<String> = Vec::new();
+    for e in &o.events {
+        if let Some(rest) = e.strip_prefix("type") {
+            let d: String = rest.chars().take_while(|c| c.is_ascii_digit()).collect();
+            if !t.contains(&d) {
+                t.push(d);
+            }
+        }
+    }
+    if o.events.iter().any(|e| e.starts_with("kern")) {
+        t.push("kern".into());
+    }
+    if t.is_empty() {
+        t.push(format!("none-applied-{:?}", case.scenario));
+    }
+    t.join("+")
+}
+
+struct Verdict {
+    rule: &'static str,
+    what: String,
+    detail: String,
+}
+
+/// The relational oracle. `o`: model outcome; `obs`: allsorts.
+fn judge(case: &Case, o: &Outcome, obs: &Observed, classes: &mut Vec<String>) -> Vec<Verdict> {
+    let mut v: Vec<Verdict> = Vec::new();
+    let n = o.g.len();
+    let hm = |i: usize| case.uni.adv.get(o.g[i].gid as usize).copied().unwrap_or(0) as i32;
+    let mut in_link = vec![false; n];
+    let mut has_incoming = vec![false; n];
+    for i in 0..n {
+        if let Some(c) = o.g[i].curs {
+            in_link[i] = true;
+            in_link[c.to] = true;
+            has_incoming[c.to] = true;
+        }
+    }
+    // a glyph is judged unless something outside the core touched it or the glyph it hangs on
+    let mut nj: Vec<bool> = o.g.iter().map(|g| g.nojudge).collect();
+    for i in 0..n {
+        if let Some(a) = o.g[i].att {
+            if nj[a.base] {
+                nj[i] = true;
+            }
+        }
+    }
+    // Info level
+    for i in 0..n {
+        if nj[i] {
+            classes.push("glyph-not-judged".into());
+            continue;
+        }
+        let g = &o.g[i];
+        if obs.kerning[i] != g.xadv && obs.kerning[i] != g.xadv_alt {
+            v.push(Verdict { rule: "info-kerning", what: "kerning".into(), detail: format!("glyph #{} (gid {}): Info.kerning {} expected {}", i, g.gid, obs.kerning[i], g.xadv) });
+        } else if g.xadv != g.xadv_alt {
+            classes.push(if obs.kerning[i] == g.xadv { "kern:minimum-clamps-from-above".into() } else { "kern:minimum-clamps-from-below".into() });
+        }
+        match (obs.placement[i], g.att, g.curs) {
+            (Placement::MarkAnchor(b, ba, ma), Some(a), _) => {
+                let ex = (a.bx - a.mx + g.dx, a.by - a.my + g.dy);
+                let got = (ba.x as i32 - ma.x as i32, ba.y as i32 - ma.y as i32);
+                if b != a.base || ex != got {
+                    v.push(Verdict { rule: "info-placement", what: "mark-anchor".into(), detail: format!("glyph #{}: MarkAnchor(base #{}, delta {:?}) expected base #{} delta {:?}", i, b, got, a.base, ex) });
+                }
+            }
+            (p, Some(a), _) => v.push(Verdict { rule: "info-placement", what: "mark-not-attached".into(), detail: format!("glyph #{} (gid {}): placement {:?}, expected attachment to #{}", i, g.gid, p, a.base) }),
+            (Placement::CursiveAnchor(to, flag, _, _), None, Some(c)) => {
+                if to != c.to || flag != c.rtl_flag {
+                    v.push(Verdict { rule: "info-placement", what: "cursive-link".into(), detail: format!("glyph #{}: CursiveAnchor(to #{}, rtl {}) expected to #{} rtl {}", i, to, flag, c.to, c.rtl_flag) });
+                }
+            }
+            (p, None, Some(c)) => v.push(Verdict { rule: "info-placement", what: "cursive-not-linked".into(), detail: format!("glyph #{} (gid {}): placement {:?}, expected cursive link to #{}", i, g.gid, p, c.to) }),
+            (Placement::None, None, None) => {
+                if (g.dx, g.dy) != (0, 0) {
+                    v.push(Verdict { rule: "info-placement", what: "distance-missing".into(), detail: format!("glyph #{} (gid {}): Placement::None expected distance ({}, {})", i, g.gid, g.dx, g.dy) });
+                }
+            }
+            (Placement::Distance(x, y), None, None) => {
+                if (x, y) != (g.dx, g.dy) {
+                    v.push(Verdict { rule: "info-placement", what: "distance".into(), detail: format!("glyph #{} (gid {}): Distance({}, {}) expected ({}, {})", i, g.gid, x, y, g.dx, g.dy) });
+                }
+            }
+            (p, None, None) => v.push(Verdict { rule: "info-placement", what: "unexpected-attachment".into(), detail: format!("glyph #{} (gid {}): placement {:?}, expected none/distance ({}, {})", i, g.gid, p, g.dx, g.dy) }),
+        }
+    }
+    // geometry, both directions
+    for (d, dname) in ["ltr", "rtl"].iter().enumerate() {
+        let rtl = d == 1;
+        let p = &obs.pos[d];
+        let org = origins(&p.iter().map(|x| (x.0, x.1, x.2)).collect::<Vec<_>>(), rtl);
+        for i in 0..n {
+            if p[i].3 != 0 {
+                v.push(Verdict { rule: "advance", what: format!("vertical-advance:{}", dname), detail: format!("glyph #{}: vert_advance {} in horizontal layout", i, p[i].3) });
+            }
+            if nj[i] {
+                continue;
+            }
+            let g = &o.g[i];
+            // (1) advances
+            if !in_link[i] {
+                let e = hm(i) + g.xadv;
+                let e2 = hm(i) + g.xadv_alt;
+                if p[i].0 != e && p[i].0 != e2 {
+                    v.push(Verdict { rule: "advance", what: format!("advance:{}", dname), detail: format!("glyph #{} (gid {}): advance {} expected {} (font advance {} + adjustments {})", i, g.gid, p[i].0, e, hm(i), g.xadv) });
+                }
+            }
+            // (2) offsets of glyphs that are not attached
+            if g.att.is_none() && !in_link[i] {
+                if (p[i].1, p[i].2) != (g.dx, g.dy) {
+                    v.push(Verdict { rule: "offset", what: format!("offset:{}", dname), detail: format!("glyph #{} (gid {}): offset ({}, {}) expected ({}, {})", i, g.gid, p[i].1, p[i].2, g.dx, g.dy) });
+                }
+            }
+            // (3) marks
+            if let Some(a) = g.att {
+                let between: i32 = (a.base + 1..=i).map(|k| hm(k) + o.g[k].xadv).sum();
+                let between_unknown = (a.base + 1..i).any(|k| nj[k]);
+                if rtl && (between != 0 || between_unknown) {
+                    classes.push("rtl:mark-with-advance-between:not-judged".into());
+                    let ex = (a.bx - a.mx + g.dx, a.by - a.my + g.dy);
+                    let got = (org[i].0 - org[a.base].0, org[i].1 - org[a.base].1);
+                    classes.push(if ex == got { "rtl:mark-with-advance-between:agrees".into() } else { "rtl:mark-with-advance-between:disagrees".into() });
+                } else {
+                    let ex = (a.bx - a.mx + g.dx, a.by - a.my + g.dy);
+                    let got = (org[i].0 - org[a.base].0, org[i].1 - org[a.base].1);
+                    if ex != got {
+                        let kind = if o.g[a.base].att.is_some() {
+                            "mark-on-mark"
+                        } else if in_link[a.base] {
+                            "mark-on-cursive-glyph"
+                        } else if (o.g[a.base].dx, o.g[a.base].dy) != (0, 0) {
+                            "mark-on-displaced-base"
+                        } else {
+                            "mark-on-base"
+                        };
+                        v.push(Verdict {
+                            rule: "mark-attach",
+                            what: format!("{}:{}", kind, dname),
+                            detail: format!("mark #{} (gid {}) on #{} (gid {}): origin difference {:?} expected base anchor - mark anchor (+ own placement) = {:?}", i, g.gid, a.base, o.g[a.base].gid, got, ex),
+                        });
+                    } else {
+                        classes.push(format!("judged:mark-relative-position:{}", dname));
+                    }
+                }
+            }
+            // (4) cursive
+            if let Some(c) = g.curs {
+                if nj[c.to] {
+                    continue;
+                }
+                let lhs = org[i].1 + c.exit.1;
+                let rhs = org[c.to].1 + c.entry.1;
+                if lhs != rhs {
+                    v.push(Verdict {
+                        rule: "cursive",
+                        what: format!("cross-stream:flag-{}:{}", if c.rtl_flag { "set" } else { "clear" }, dname),
+                        detail: format!("glyphs #{} -> #{}: exit anchor at y {} but entry anchor at y {} (y offsets {} and {})", i, c.to, lhs, rhs, org[i].1, org[c.to].1),
+                    });
+                } else {
+                    classes.push(format!("judged:cursive-cross-stream:{}", dname));
+                }
+                // which end stays on the baseline
+                let fixed = if c.rtl_flag { c.to } else { i };
+                let is_end = if c.rtl_flag { o.g[c.to].curs.is_none() } else { !has_incoming[i] };
+                if is_end && org[fixed].1 != o.g[fixed].dy {
+                    v.push(Verdict {
+                        rule: "cursive",
+                        what: format!("fixed-end:flag-{}:{}", if c.rtl_flag { "set" } else { "clear" }, dname),
+                        detail: format!("glyphs #{} -> #{}: glyph #{} should keep y offset {} but has {}", i, c.to, fixed, o.g[fixed].dy, org[fixed].1),
+                    });
+                }
+                // line-layout direction: "the layout engine adjusts the advance of the first glyph
+                // [...] so that the anchors are aligned in that direction"
+                let l = org[i].0 + c.exit.0;
+                let r = org[c.to].0 + c.entry.0;
+                let between: i32 = (i + 1..c.to).map(|k| hm(k) + o.g[k].xadv).sum();
+                if between != 0 || (i + 1..c.to).any(|k| nj[k]) {
+                    // skipped glyphs with an advance between the two: where they go is not defined
+                    classes.push("cursive-line:advance-between:not-judged".into());
+                } else if l != r {
+                    v.push(Verdict {
+                        rule: "cursive-line",
+                        what: format!("line-direction-anchors-apart:{}", dname),
+                        detail: format!("glyphs #{} -> #{}: exit anchor at x {} but entry anchor at x {} (origins {} and {})", i, c.to, l, r, org[i].0, org[c.to].0),
+                    });
+                } else {
+                    classes.push(format!("judged:cursive-line-direction:{}", dname));
+                }
+            }
+        }
+    }
+    // rules with open findings last, so that they never hide another disagreement
+    v.sort_by_key(|x| x.rule == "cursive-line");
+    v
+}
+
 impl Prop for C05 {
-    fn case(&mut self, cx: &mut Ctx, _rng: &mut Rng) {
-        cx.inconclusive("not-implemented");
+    fn case(&mut self, cx: &mut Ctx, rng: &mut Rng) {
+        let wide = cx.mode.contains("wide");
+        let only = [Scenario::Adjust, Scenario::Marks, Scenario::Cursive, Scenario::Context, Scenario::KernFallback, Scenario::KernOnly, Scenario::Mixed]
+            .into_iter()
+            .find(|s| cx.mode.contains(&format!("only={:?}", s)));
+        let opts = Opts { wide, mfs: MFS_ENABLED, only };
+        let case = generate(rng, &opts);
+        let has_f2 = case.kern.as_ref().map_or(false, |k| k.subs.iter().any(|s| matches!(s.data, KernData::F2 { .. })));
+        let font = match build_font(&case, false) {
+            Ok(f) => f,
+            Err(e) => {
+                cx.inconclusive(&format!("generator:{}", e));
+                return;
+            }
+        };
+        // model, both application orders
+        let mut o = Model::new(&case).run(Order::LookupList);
+        let mut o2 = Model::new(&case).run(Order::PerFeature);
+        finalize(&mut o);
+        finalize(&mut o2);
+        let order_dependent = o.g != o2.g;
+
+        let len = font.len();
+        let obs = cx.guard("shape+layout", len, || run_allsorts(&case, &font));
+        let obs = match obs {
+            None => return, // panic recorded by the guard
+            Some(Err(RunErr::Setup(e))) => {
+                cx.inconclusive("generator:font-rejected");
+                if cx.verbose {
+                    eprintln!("C05 setup: {}", e);
+                }
+                return;
+            }
+            Some(Err(RunErr::Shape(e))) => {
+                let e: String = normalise_digits(&e);
+                cx.violation("shape-error", &format!("shape-error:{}", e), J::obj(vec![("error", J::s(e.clone())), ("case", case_json(&case, &font))]));
+                return;
+            }
+            Some(Err(RunErr::Layout(e))) => {
+                cx.violation("layout-error", &format!("layout-error:{}", e), J::obj(vec![("error", J::s(e.clone())), ("case", case_json(&case, &font))]));
+                return;
+            }
+            Some(Ok(o)) => o,
+        };
+        cx.class(&format!("scenario:{:?}", case.scenario));
+        cx.class(if case.direct && case.gpos.is_some() { "path:apply_features" } else { "path:Font::shape" });
+        if obs.gids != o.g.iter().map(|g| g.gid).collect::<Vec<_>>() {
+            cx.inconclusive("gsub-result-differs-from-setup");
+            return;
+        }
+        if !case.liga.is_empty() && o.g.len() != case.input.len() {
+            cx.class("gsub:ligature-formed");
+        }
+        if order_dependent {
+            cx.class("not-judged:feature-order-dependent");
+            return;
+        }
+        if wide {
+            for r in &case.wide_reasons {
+                cx.class(&format!("wide:{}", r));
+            }
+        }
+        for a in &o.amb {
+            cx.class(&format!("outside-core:{}", a));
+        }
+        let mut classes = Vec::new();
+        let mut verdicts = judge(&case, &o, &obs, &mut classes);
+
+        // kern format 2: the left class values may or may not include the array offset; the
+        // chapter's wording supports both. Accept the font whose encoding allsorts reads correctly.
+        if has_f2 && o.events.iter().any(|e| e.starts_with("kern:fmt2")) {
+            let font_b = match build_font(&case, true) {
+                Ok(f) => f,
+                Err(_) => return,
+            };
+            let obs_b = cx.guard("shape+layout", font_b.len(), || run_allsorts(&case, &font_b));
+            if let Some(Ok(obs_b)) = obs_b {
+                let mut cb = Vec::new();
+                let vb = judge(&case, &o, &obs_b, &mut cb);
+                match (verdicts.is_empty(), vb.is_empty()) {
+                    (true, true) => cx.class("kern2:both-encodings-agree"),
+                    (true, false) => cx.class("kern2:left-class-relative-to-array"),
+                    (false, true) => {
+                        cx.class("kern2:left-class-relative-to-subtable");
+                        verdicts = vb;
+                        classes = cb;
+                    }
+                    (false, false) => {}
+                }
+            }
+        }
+
+        for c in &classes {
+            cx.class(c);
+        }
+        // the line-direction part of cursive attachment is judged separately: a case where only
+        // that rule fails is still evidence for everything else
+        let line_only: Vec<Verdict> = if verdicts.iter().all(|x| x.rule == "cursive-line") { std::mem::take(&mut verdicts) } else { Vec::new() };
+        let mut seen: Vec<&str> = Vec::new();
+        for vd in &line_only {
+            if seen.contains(&vd.what.as_str()) {
+                continue;
+            }
+            seen.push(vd.what.as_str());
+            cx.violation(
+                vd.rule,
+                &vd.what,
+                J::obj(vec![
+                    ("detail", J::s(vd.detail.clone())),
+                    ("events", J::A(o.events.iter().map(|e| J::s(e.clone())).collect())),
+                    ("observed_placement", J::s(format!("{:?}", obs.placement).chars().take(3000).collect::<String>())),
+                    ("observed_ltr", J::s(format!("{:?}", obs.pos[0]))),
+                    ("observed_rtl", J::s(format!("{:?}", obs.pos[1]))),
+                    ("case", case_json(&case, &font)),
+                ]),
+            );
+        }
+        if verdicts.is_empty() {
+            for e in &o.events {
+                cx.class(e);
+            }
+            if o.applied > 0 {
+                cx.nontrivial(mix(hash_bytes(&font), hash_bytes(&case.input.iter().flat_map(|g| g.to_be_bytes()).collect::<Vec<u8>>())));
+                cx.class("judged:nontrivial");
+                if cx.want_sample() {
+                    cx.sample(J::obj(vec![
+                        ("scenario", J::s(format!("{:?}", case.scenario))),
+                        ("input", J::A(case.input.iter().map(|&g| J::U(g as u64)).collect())),
+                        ("events", J::A(o.events.iter().map(|e| J::s(e.clone())).collect())),
+                        ("ltr", J::s(format!("{:?}", obs.pos[0]))),
+                        ("rtl", J::s(format!("{:?}", obs.pos[1]))),
+                    ]));
+                }
+            } else {
+                cx.class("judged:nothing-applied");
+            }
+        } else {
+            // name the defect class: which single deviation from the specification explains it
+            let explain = |q: Quirks| -> Vec<Verdict> {
+                let mut oq = Model::with_quirks(&case, q).run(Order::PerFeature);
+                finalize(&mut oq);
+                let mut scratch = Vec::new();
+                judge(&case, &oq, &obs, &mut scratch)
+            };
+            let mut q = Quirks::all();
+            let rest = explain(q);
+            let (vd, sig) = if rest.is_empty() {
+                for i in 0..Quirks::NAMES.len() {
+                    q.set(i, false);
+                    if !explain(q).is_empty() {
+                        q.set(i, true);
+                    }
+                }
+                (&verdicts[0], (0..Quirks::NAMES.len()).filter(|&i| q.get(i)).map(|i| Quirks::NAMES[i]).collect::<Vec<_>>().join("+"))
+            } else if rest.iter().all(|x| x.rule == "mark-attach" || x.rule == "cursive" || x.rule == "cursive-line") {
+                // the interpreter-level result is explained; what remains is in the pen model
+                (&rest[0], rest[0].what.clone())
+            } else {
+                (&verdicts[0], format!("undiagnosed:{}:{}", verdicts[0].what, lookup_types(&case, &o)))
+            };
+            cx.violation(
+                vd.rule,
+                &sig,
+                J::obj(vec![
+                    ("detail", J::s(vd.detail.clone())),
+                    ("all", J::A(verdicts.iter().take(12).map(|x| J::s(format!("[{}] {}", x.rule, x.detail))).collect())),
+                    ("model", J::s(format!("{:?}", o.g).chars().take(4000).collect::<String>())),
+                    ("events", J::A(o.events.iter().map(|e| J::s(e.clone())).collect())),
+                    ("observed_kerning", J::s(format!("{:?}", obs.kerning))),
+                    ("observed_placement", J::s(format!("{:?}", obs.placement).chars().take(3000).collect::<String>())),
+                    ("observed_ltr", J::s(format!("{:?}", obs.pos[0]))),
+                    ("observed_rtl", J::s(format!("{:?}", obs.pos[1]))),
+                    ("case", case_json(&case, &font)),
+                ]),
+            );
+        }
     }
 }
